@@ -547,4 +547,42 @@ pub mod verif_hooks {
                 .unwrap_or(0),
         ))
     }
+    /// The private `apply_simple_kerning` on the n-th subtable of the face's `kerx` (formats 0 / 2 / 6 only) on a buffer
+    /// whose clusters, masks, cluster level and buffer flags the caller chooses, so that the glyph flags it sets can be
+    /// read back.  Returns (positions, HAS_GPOS_ATTACHMENT set, masks, scratch_flags); None = no such simple subtable.
+    pub fn simple_kerning_flags(
+        plan: &hb_ot_shape_plan_t,
+        face: &hb_font_t,
+        n: usize,
+        infos: &[crate::hb::kerning::verif_hooks::IF],
+        pos: &[P],
+        len: usize,
+        direction: Direction,
+        buffer_flags: u32,
+        cluster_level: u8,
+    ) -> Option<(Vec<P>, bool, Vec<u32>, u32)> {
+        let sub = face.tables().kerx?.subtables.into_iter().nth(n)?;
+        if !matches!(
+            sub.format,
+            kerx::Format::Format0(_) | kerx::Format::Format2(_) | kerx::Format::Format6(_)
+        ) {
+            return None;
+        }
+        let mut b = crate::hb::kerning::verif_hooks::mk_buffer_flags(
+            infos,
+            pos,
+            len,
+            direction,
+            buffer_flags,
+            cluster_level,
+        );
+        apply_simple_kerning(&sub, plan, face, &mut b);
+        let has = b.scratch_flags & HB_BUFFER_SCRATCH_FLAG_HAS_GPOS_ATTACHMENT != 0;
+        Some((
+            b.pos.iter().map(rd_pos).collect(),
+            has,
+            b.info.iter().map(|i| i.mask).collect(),
+            b.scratch_flags,
+        ))
+    }
 }
